@@ -2,6 +2,7 @@
 from .. import absyn as A
 from .. import gen, hplapi, semantic as S, shrink
 from ..model import eval as E
+from ..model import typing as TYB
 
 ID = 'C09'
 LEVEL = 'exploration'
@@ -71,22 +72,28 @@ def hot(f):
         return True
     if f[0] == 'quant' and f[4][0] == 'bin' and 'quant' in (f[4][2][0], f[4][3][0]):
         return True  # a quantifier over a connective one of whose operands is itself a quantifier
+    if f[0] == 'quant' and f[4][0] == 'quant' and f[4][4][0] == 'bin':
+        return True  # two nested quantifiers over a connective
     return f[0] == 'un' and f[1] == 'not' and f[2][0] == 'quant' and f[2][4][0] == 'bin'
 
 
-def fill_domains(e, rng, outer=None):
+def fill_domains(e, rng, outer=None, outer_var=None):
     """nested quantifiers range over the domain of the enclosing one half of the time"""
     if e == ('D',):
+        if outer_var is not None and rng.random() < 0.4:
+            # a literal domain that depends on the enclosing quantifier's variable
+            return gen.pick(rng, (('set', (A.num('1'), A.var(outer_var))), ('range', A.num('0'), A.var(outer_var), False, False),
+                                  ('set', (A.var(outer_var),))))
         if outer is not None and rng.random() < 0.5:
             return outer
         return gen.pick(rng, DOMAINS)
     ks = A.children(e) if e[0] != 'quant' else None
     if e[0] == 'quant':
-        d = fill_domains(e[3], rng, outer)
-        return ('quant', e[1], e[2], d, fill_domains(e[4], rng, d))
+        d = fill_domains(e[3], rng, outer, outer_var)
+        return ('quant', e[1], e[2], d, fill_domains(e[4], rng, d, e[2]))
     if not ks:
         return e
-    return A.rebuild(e, [fill_domains(k, rng, outer) for k in ks])
+    return A.rebuild(e, [fill_domains(k, rng, outer, outer_var) for k in ks])
 
 
 def grid(rng, n_random=0):
@@ -212,6 +219,9 @@ def run(ctx):
                 cc = S.Case(c, case.this, case.aliases, case.level)
                 if cc.parse()[0] != 'ok':
                     return False
+                hc = cc.h.condition if getattr(cc.h, 'is_predicate', False) else cc.h
+                if not TYB.is_well_typed(c, case.this, case.aliases, ('bool',)):
+                    return False  # the minimised witness must stay a boolean term of the property's domain
                 return judge(cc, envs)[0] == kind
             m = shrink.shrink_expr(case.e, fails)
             cc = S.Case(m, case.this, case.aliases, case.level)
